@@ -48,6 +48,15 @@ def strategy(draw):
         m = draw(st.one_of(st.integers(2, max(2, nmin // 2)), st.integers(2, nmin), st.sampled_from([nmin, max(2, nmin - 1)])))
     phi = draw(gen.floats(0.05, 0.95)) if mode == "frac" else 0.0
     wl = None if mode == "none" else (m / fs if phi == 0.0 else (m + phi) / fs)
+    if nrec >= 2 and mode in ("exact", "frac") and draw(gen.chance(3)):
+        # a list mixing two sampling rates (allowed, with a warning): every recording is windowed with its own time step
+        factor = 2.0
+        if mode == "frac" and abs(2 * phi - 1.0) < 0.1:
+            factor = 1.0
+        if factor != 1.0:
+            recs[1]["fs_factor"] = factor
+            recs[1]["dt"] = 1.0 / (fs * factor)
+            recs[1]["n"] = max(recs[1]["n"], int(2 * m + 3))
     fnyq = fs / 2.0
     ftype = draw(st.sampled_from(["none", "none", "high", "low", "band"]))
     lo = draw(gen.log_floats(fnyq * 1e-3, fnyq * 0.4))
@@ -113,9 +122,18 @@ def _detrend(x, kind):
     return signal.detrend(x, type=kind)
 
 
-def _reference(comps, dfn, case, order="documented"):
+def _rate(case, r):
+    """(sampling rate, whole sample intervals per window) of one recording of the case."""
+    fac = r.get("fs_factor", 1.0)
+    fs = case["fs"] * fac
+    if fac == 1.0 or case["wl"] is None:
+        return fs, case["m"]
+    return fs, int(math.floor(case["wl"] * fs + 1e-6))
+
+
+def _reference(comps, dfn, case, order="documented", rate=None):
     """Windows (list of (ns, ew, vt)) from the independent pipeline; order selects alternatives."""
-    fs, k = case["fs"], case["m"]
+    fs, k = rate if rate is not None else (case["fs"], case["m"])
     ns, ew, vt = comps
     if case["orient"] is not None:
         cur = dfn - 360.0 * math.floor(dfn / 360.0)
@@ -166,7 +184,10 @@ def check_case(case):
                                             window_length_in_seconds=case["wl"], detrend=case["detrend"])
 
     nmin = min(len(a[0]) for a in arrays)
-    too_long = case["wl"] is not None and any(len(a[0]) // k < 1 for a in arrays)
+    rates = [_rate(case, r) for r in case["records"]]          # (fs, k) per recording
+    if any(r.get("fs_factor", 1.0) != 1.0 for r in case["records"]):
+        labels.append("mixed-sampling-rates")
+    too_long = case["wl"] is not None and any(len(a[0]) // kr < 1 for a, (_, kr) in zip(arrays, rates))
 
     # ---- 1. tiling: no filter / detrend / orientation ------------------------
     try:
@@ -178,28 +199,28 @@ def check_case(case):
         raise Violation(f"preprocess refused a {case['wl']!r} s window ({k} intervals at {fs} Hz) on records of {[len(a[0]) for a in arrays]} samples: {r.exc}")
     require(not too_long, f"window of {k} intervals accepted for a record of {nmin} samples (no whole window fits)")
     expected = []
-    for (ns, ew, vt), r in zip(arrays, case["records"]):
+    for (ns, ew, vt), r, (fsr, kr) in zip(arrays, case["records"], rates):
         n = len(ns)
-        sl = [(0, n)] if case["wl"] is None else _slices(n, k)
+        sl = [(0, n)] if case["wl"] is None else _slices(n, kr)
         for (a, b) in sl:
-            expected.append((ns[a:b], ew[a:b], vt[a:b], r["degrees_from_north"]))
+            expected.append((ns[a:b], ew[a:b], vt[a:b], r["degrees_from_north"], 1.0 / fsr, kr))
     if len(wins) != len(expected):
         raise Violation(f"{fs} Hz, window length {case['wl']!r} s (= {k}{'+phi' if case['mode'] == 'frac' else ''} sample intervals), records of "
                         f"{[len(a[0]) for a in arrays]} samples: {len(wins)} windows returned, expected {len(expected)} (floor(N/k) each)")
-    for j, (w, (ens, eew, evt, dfn)) in enumerate(zip(wins, expected)):
+    for j, (w, (ens, eew, evt, dfn, dtr, kr)) in enumerate(zip(wins, expected)):
         if w.ns.n_samples != len(ens):
-            raise Violation(f"{fs} Hz, window length {case['wl']!r} s: window {j} has {w.ns.n_samples} samples, expected k+1 = {len(ens)} "
-                            f"(k = {k} whole sample intervals)")
+            raise Violation(f"{1.0 / dtr:.6g} Hz, window length {case['wl']!r} s: window {j} has {w.ns.n_samples} samples, expected k+1 = {len(ens)} "
+                            f"(k = {kr} whole sample intervals of that recording)")
         if not (same_bits(w.ns.amplitude, ens) and same_bits(w.ew.amplitude, eew) and same_bits(w.vt.amplitude, evt)):
-            raise Violation(f"window {j} does not carry the record's samples [j*k : j*k+k+1] unaltered (k={k}, fs={fs})")
-        require(w.ns.dt_in_seconds == dt and w.ew.dt_in_seconds == dt and w.vt.dt_in_seconds == dt, f"window {j}: time step changed")
+            raise Violation(f"window {j} does not carry the record's samples [j*k : j*k+k+1] unaltered (k={kr}, fs={1.0 / dtr:.6g})")
+        require(w.ns.dt_in_seconds == dtr and w.ew.dt_in_seconds == dtr and w.vt.dt_in_seconds == dtr, f"window {j}: time step changed")
         require(abs(((w.degrees_from_north - dfn + 180) % 360) - 180) < 1e-9, f"window {j}: orientation {w.degrees_from_north} != record's {dfn}")
     nwin_total = len(wins)
     if case["wl"] is not None:
-        for a in arrays:
+        for a, (_, kr) in zip(arrays, rates):
             n = len(a[0])
-            tail = n - ((n // k) * k + 1)
-            require(tail < k, f"discarded tail of {tail} samples is not shorter than one window (k={k})")
+            tail = n - ((n // kr) * kr + 1)
+            require(tail < kr, f"discarded tail of {tail} samples is not shorter than one window (k={kr})")
 
     if case.get("big"):
         labels.append("big-k-2^%d" % int(math.log2(k)))
@@ -210,10 +231,10 @@ def check_case(case):
     # ---- 2. documented order of steps ------------------------------------------
     got = sut(hv.preprocess, build(), settings(), what="preprocess")
     ref, alt1, alt2 = [], [], []
-    for comps, r in zip(arrays, case["records"]):
-        ref += _reference(comps, r["degrees_from_north"], case)
-        alt1 += _reference(comps, r["degrees_from_north"], case, "filter-after-split")
-        alt2 += _reference(comps, r["degrees_from_north"], case, "detrend-before-split")
+    for comps, r, rate in zip(arrays, case["records"], rates):
+        ref += _reference(comps, r["degrees_from_north"], case, rate=rate)
+        alt1 += _reference(comps, r["degrees_from_north"], case, "filter-after-split", rate=rate)
+        alt2 += _reference(comps, r["degrees_from_north"], case, "detrend-before-split", rate=rate)
     require(len(got) == len(ref), f"{len(got)} windows from the full pipeline, expected {len(ref)}")
     scale = max(max(float(np.max(np.abs(c))) for c in a) for a in arrays)
     for j, (w, e) in enumerate(zip(got, ref)):
